@@ -1,12 +1,1341 @@
-//! C08 - not implemented yet
-use crate::common::Report;
+//! C08 - custom-operation instantiation is total and meaning-preserving.
+//!
+//! Enumerated: contexts mixing library custom operations (alphabet: every public custom op with 2-3
+//! values of each parameter, applied to argument signatures from a small type alphabet):
+//! every unordered pair of "uses" (op+parameters+argument types) once and twice in one graph, two
+//! parameterisations of one op side by side on the SAME arguments, nesting (output of one feeding
+//! the other, with TupleGet / A2B / B2A glue where needed), and in the thorough tier every unordered
+//! triple of alphabet members.
+//!
+//! Oracle (all on the real code):
+//!  (1) `run_instantiation_pass` returns Ok for every context the builder accepted;
+//!  (2) the real evaluator on the instantiated context equals a per-node reference walk over the
+//!      ORIGINAL graph: a Custom node is evaluated by instantiating that single operation alone in a
+//!      fresh one-op context (the configuration the repo's unit tests cover), any other node by
+//!      `SimpleEvaluator::evaluate_node`;
+//!  (3) distinct (operation, argument types) must be mapped to distinct instantiated graphs, and two
+//!      parameterisations of one op on the same arguments must give different results whenever their
+//!      single-op references differ on that input.
+use crate::common::{catch, stable_msg, Report};
+use crate::exec::{first_line, seed_bytes};
+use crate::vals::{arr_value, build_value, num_elems, show, st_signed};
+use ciphercore_base::custom_ops::{run_instantiation_pass, CustomOperation, Not, Or};
+use ciphercore_base::data_types::{
+    array_type, named_tuple_type, scalar_type, ScalarType, Type, BIT, INT16, INT32, INT64, UINT64, UINT8,
+};
+use ciphercore_base::data_values::Value;
+use ciphercore_base::evaluators::simple_evaluator::SimpleEvaluator;
+use ciphercore_base::evaluators::{evaluate_simple_evaluator, Evaluator};
+use ciphercore_base::graphs::{create_context, Context, Graph, Node, Operation};
+use ciphercore_base::ops::adder::BinaryAdd;
+use ciphercore_base::ops::auc::AucScore;
+use ciphercore_base::ops::clip::Clip2K;
+use ciphercore_base::ops::comparisons::{
+    Equal, GreaterThan, GreaterThanEqualTo, LessThan, LessThanEqualTo, NotEqual,
+};
+use ciphercore_base::ops::fixed_precision::fixed_multiply::FixedMultiply;
+use ciphercore_base::ops::fixed_precision::fixed_precision_config::FixedPrecisionConfig;
+use ciphercore_base::ops::goldschmidt_division::GoldschmidtDivision;
+use ciphercore_base::ops::integer_key_sort::SortByIntegerKey;
+use ciphercore_base::ops::inverse_sqrt::InverseSqrt;
+use ciphercore_base::ops::long_division::LongDivision;
+use ciphercore_base::ops::min_max::{Max, Min};
+use ciphercore_base::ops::multiplexer::Mux;
+use ciphercore_base::ops::newton_inversion::NewtonInversion;
+use ciphercore_base::ops::pwl::approx_exponent::ApproxExponent;
+use ciphercore_base::ops::pwl::approx_gelu::ApproxGelu;
+use ciphercore_base::ops::pwl::approx_gelu_derivative::ApproxGeluDerivative;
+use ciphercore_base::ops::pwl::approx_sigmoid::ApproxSigmoid;
+use ciphercore_base::ops::taylor_exponent::TaylorExponent;
+use rayon::prelude::*;
+use serde_json::{json, Value as J};
+use std::cell::RefCell;
+use std::collections::{BTreeMap, BTreeSet, HashMap};
 
-pub fn run(_r: &Report) -> i32 {
-    println!("MACHINERY-ERROR property=C08 check not implemented");
-    2
+// ---------------------------------------------------------------------------------------------
+// alphabet
+// ---------------------------------------------------------------------------------------------
+
+/// One alphabet member: an operation with fixed parameters and its candidate argument signatures.
+struct Member {
+    /// struct name of the operation
+    base: &'static str,
+    /// human-readable parameters
+    params: String,
+    op: CustomOperation,
+    /// candidate argument signatures; the builder decides which are accepted
+    sigs: Vec<Vec<Type>>,
+    /// expensive signatures (64-bit bit strings = A2B bridge to the integer ops; array arguments of
+    /// FixedMultiply{debug=true}): members of pairs/triples only in the thorough tier; in the quick tier
+    /// the 64-bit ones are still nesting targets
+    wide_sigs: Vec<Vec<Type>>,
 }
 
-pub fn replay(_r: &Report, _rec: &serde_json::Value) -> i32 {
-    println!("MACHINERY-ERROR property=C08 replay not implemented");
-    2
+impl Member {
+    fn label(&self) -> String {
+        if self.params.is_empty() {
+            self.base.to_string()
+        } else {
+            format!("{}{{{}}}", self.base, self.params)
+        }
+    }
+}
+
+fn bits(shape: &[u64]) -> Type {
+    array_type(shape.to_vec(), BIT)
+}
+fn ints(shape: &[u64], st: ScalarType) -> Type {
+    if shape.is_empty() {
+        scalar_type(st)
+    } else {
+        array_type(shape.to_vec(), st)
+    }
+}
+fn table1() -> Type {
+    named_tuple_type(vec![
+        ("a".to_string(), ints(&[4], INT32)),
+        ("b".to_string(), ints(&[4], UINT8)),
+    ])
+}
+fn table2() -> Type {
+    named_tuple_type(vec![
+        ("a".to_string(), ints(&[3], UINT64)),
+        ("b".to_string(), ints(&[3, 2], INT16)),
+        ("c".to_string(), bits(&[3])),
+    ])
+}
+
+fn alphabet() -> Vec<Member> {
+    let mut m: Vec<Member> = vec![];
+    let mut add = |base: &'static str, params: String, op: CustomOperation, sigs: Vec<Vec<Type>>, wide: Vec<Vec<Type>>| {
+        m.push(Member { base, params, op, sigs, wide_sigs: wide });
+    };
+    let b28 = bits(&[2, 8]);
+    let b8 = bits(&[8]);
+    let b24 = bits(&[2, 4]);
+    let b2 = bits(&[2]);
+    let b21 = bits(&[2, 1]);
+    let b0 = scalar_type(BIT);
+    let b364 = bits(&[3, 64]);
+    let i3 = ints(&[3], INT64);
+    let i0 = ints(&[], INT64);
+    let u3 = ints(&[3], UINT64);
+    let i4 = ints(&[4], INT64);
+    let bin_sigs = vec![
+        vec![b28.clone(), b28.clone()],
+        vec![b28.clone(), b8.clone()],
+        vec![b24.clone(), b24.clone()],
+        // the mirror image of the second signature (same multiset of argument types, other order)
+        vec![b8.clone(), b28.clone()],
+    ];
+    let bin_wide = vec![vec![b364.clone(), b364.clone()]];
+
+    add("Not", String::new(), CustomOperation::new(Not {}), vec![vec![b28.clone()], vec![b2.clone()], vec![b0.clone()]], vec![vec![b364.clone()]]);
+    add(
+        "Or",
+        String::new(),
+        CustomOperation::new(Or {}),
+        vec![vec![b28.clone(), b28.clone()], vec![b2.clone(), b2.clone()], vec![b28.clone(), b8.clone()]],
+        bin_wide.clone(),
+    );
+    add(
+        "Mux",
+        String::new(),
+        CustomOperation::new(Mux {}),
+        vec![
+            vec![b21.clone(), b28.clone(), b28.clone()],
+            vec![b2.clone(), b2.clone(), b2.clone()],
+            vec![b0.clone(), i3.clone(), i3.clone()],
+        ],
+        vec![vec![b364.clone(), b364.clone(), b364.clone()]],
+    );
+    add("Equal", String::new(), CustomOperation::new(Equal {}), bin_sigs.clone(), bin_wide.clone());
+    add("NotEqual", String::new(), CustomOperation::new(NotEqual {}), bin_sigs.clone(), bin_wide.clone());
+    for s in [false, true] {
+        let p = format!("signed_comparison={}", s);
+        add("GreaterThan", p.clone(), CustomOperation::new(GreaterThan { signed_comparison: s }), bin_sigs.clone(), bin_wide.clone());
+        add("LessThan", p.clone(), CustomOperation::new(LessThan { signed_comparison: s }), bin_sigs.clone(), bin_wide.clone());
+        add(
+            "GreaterThanEqualTo",
+            p.clone(),
+            CustomOperation::new(GreaterThanEqualTo { signed_comparison: s }),
+            bin_sigs.clone(),
+            bin_wide.clone(),
+        );
+        add(
+            "LessThanEqualTo",
+            p.clone(),
+            CustomOperation::new(LessThanEqualTo { signed_comparison: s }),
+            bin_sigs.clone(),
+            bin_wide.clone(),
+        );
+        add("Min", p.clone(), CustomOperation::new(Min { signed_comparison: s }), bin_sigs.clone(), bin_wide.clone());
+        add("Max", p.clone(), CustomOperation::new(Max { signed_comparison: s }), bin_sigs.clone(), bin_wide.clone());
+    }
+    for k in [1u64, 3, 6] {
+        add(
+            "Clip2K",
+            format!("k={}", k),
+            CustomOperation::new(Clip2K { k }),
+            vec![vec![b28.clone()], vec![b8.clone()], vec![b24.clone()]],
+            vec![vec![b364.clone()]],
+        );
+    }
+    for o in [false, true] {
+        add(
+            "BinaryAdd",
+            format!("overflow_bit={}", o),
+            CustomOperation::new(BinaryAdd { overflow_bit: o }),
+            bin_sigs.clone(),
+            bin_wide.clone(),
+        );
+    }
+    for s in [false, true] {
+        add(
+            "LongDivision",
+            format!("signed={}", s),
+            CustomOperation::new(LongDivision { signed: s }),
+            vec![vec![b28.clone(), b28.clone()], vec![b28.clone(), b8.clone()], vec![b24.clone(), b24.clone()]],
+            vec![],
+        );
+    }
+    for key in ["a", "b", "c"] {
+        add(
+            "SortByIntegerKey",
+            format!("key={}", key),
+            CustomOperation::new(SortByIntegerKey { key: key.to_string() }),
+            vec![vec![table1()], vec![table2()]],
+            vec![],
+        );
+    }
+    for fb in [3u64, 10] {
+        for debug in [false, true] {
+            let config = FixedPrecisionConfig { fractional_bits: fb, debug };
+            // debug=true builds a [.., 64, 64] overflow check (about 0.1 s per array element to evaluate):
+            // array signatures of the debug variant are left to the thorough tier
+            let arr = vec![vec![i3.clone(), i3.clone()], vec![i3.clone(), i0.clone()]];
+            let (sigs, wide) = if debug {
+                (vec![vec![i0.clone(), i0.clone()]], arr)
+            } else {
+                let mut s = vec![vec![i0.clone(), i0.clone()]];
+                s.extend(arr);
+                (s, vec![])
+            };
+            add(
+                "FixedMultiply",
+                format!("fractional_bits={},debug={}", fb, debug),
+                CustomOperation::new(FixedMultiply { config }),
+                sigs,
+                wide,
+            );
+        }
+    }
+    let un_i = vec![vec![i3.clone()], vec![i0.clone()]];
+    for precision in [4u64, 10] {
+        for lb in [3u64, 5] {
+            let p = format!("precision={},approximation_log_buckets={}", precision, lb);
+            add(
+                "ApproxSigmoid",
+                p.clone(),
+                CustomOperation::new(ApproxSigmoid { precision, approximation_log_buckets: lb }),
+                un_i.clone(),
+                vec![],
+            );
+            add(
+                "ApproxGelu",
+                p.clone(),
+                CustomOperation::new(ApproxGelu { precision, approximation_log_buckets: lb }),
+                un_i.clone(),
+                vec![],
+            );
+            add(
+                "ApproxGeluDerivative",
+                p.clone(),
+                CustomOperation::new(ApproxGeluDerivative { precision, approximation_log_buckets: lb }),
+                un_i.clone(),
+                vec![],
+            );
+        }
+        add(
+            "ApproxExponent",
+            format!("precision={}", precision),
+            CustomOperation::new(ApproxExponent { precision }),
+            un_i.clone(),
+            vec![],
+        );
+    }
+    for iterations in [2u64, 3] {
+        for cap in [4u64, 10] {
+            let p = format!("iterations={},denominator_cap_2k={}", iterations, cap);
+            add(
+                "NewtonInversion",
+                p.clone(),
+                CustomOperation::new(NewtonInversion { iterations, denominator_cap_2k: cap }),
+                vec![vec![u3.clone()], vec![i3.clone()], vec![u3.clone(), u3.clone()]],
+                vec![],
+            );
+            add(
+                "GoldschmidtDivision",
+                p.clone(),
+                CustomOperation::new(GoldschmidtDivision { iterations, denominator_cap_2k: cap }),
+                vec![vec![u3.clone(), u3.clone()], vec![i3.clone(), i3.clone()], vec![i3.clone(), i3.clone(), i3.clone()]],
+                vec![],
+            );
+            add(
+                "InverseSqrt",
+                p.clone(),
+                CustomOperation::new(InverseSqrt { iterations, denominator_cap_2k: cap }),
+                vec![vec![u3.clone()], vec![i3.clone()], vec![i3.clone(), i3.clone()]],
+                vec![],
+            );
+        }
+    }
+    for terms in [3u64, 5] {
+        for fpp in [4u64, 10] {
+            add(
+                "TaylorExponent",
+                format!("taylor_terms={},fixed_precision_points={}", terms, fpp),
+                CustomOperation::new(TaylorExponent { taylor_terms: terms, fixed_precision_points: fpp }),
+                un_i.clone(),
+                vec![],
+            );
+        }
+    }
+    for fb in [3u64, 10] {
+        for debug in [false, true] {
+            let fp = FixedPrecisionConfig { fractional_bits: fb, debug };
+            add(
+                "AucScore",
+                format!("fractional_bits={},debug={}", fb, debug),
+                CustomOperation::new(AucScore { fp }),
+                vec![vec![i4.clone(), i4.clone()]],
+                vec![],
+            );
+        }
+    }
+    m
+}
+
+// ---------------------------------------------------------------------------------------------
+// context specifications (what is enumerated) and their construction through the real builder
+// ---------------------------------------------------------------------------------------------
+
+#[derive(Clone, Debug)]
+enum Step {
+    Input(Type),
+    /// (member index, argument steps)
+    Custom(usize, Vec<usize>),
+    TupleGet(usize, u64),
+    A2B(usize),
+    B2A(usize, ScalarType),
+}
+
+#[derive(Clone, Debug)]
+struct Spec {
+    label: String,
+    steps: Vec<Step>,
+    /// steps whose values form the output tuple (all custom nodes)
+    outs: Vec<usize>,
+}
+
+impl Spec {
+    fn new(label: String) -> Spec {
+        Spec { label, steps: vec![], outs: vec![] }
+    }
+    fn input(&mut self, t: &Type) -> usize {
+        self.steps.push(Step::Input(t.clone()));
+        self.steps.len() - 1
+    }
+    fn inputs(&mut self, sig: &[Type]) -> Vec<usize> {
+        sig.iter().map(|t| self.input(t)).collect()
+    }
+    fn custom(&mut self, member: usize, args: Vec<usize>) -> usize {
+        self.steps.push(Step::Custom(member, args));
+        self.outs.push(self.steps.len() - 1);
+        self.steps.len() - 1
+    }
+    fn push(&mut self, s: Step) -> usize {
+        self.steps.push(s);
+        self.steps.len() - 1
+    }
+}
+
+fn es<T, E: std::fmt::Display>(r: std::result::Result<T, E>) -> Result<T, String> {
+    r.map_err(|e| first_line(&e.to_string()))
+}
+
+/// Builds the context of a spec with the real builder. Err = the builder rejected a node
+/// (then the context is outside the property's quantifier) or panicked.
+fn build(spec: &Spec, members: &[Member]) -> Result<Context, String> {
+    let r = catch(|| -> Result<Context, String> {
+        let c = es(create_context())?;
+        let g = es(c.create_graph())?;
+        let mut nodes: Vec<Node> = vec![];
+        for s in spec.steps.iter() {
+            let n = match s {
+                Step::Input(t) => es(g.input(t.clone()))?,
+                Step::Custom(m, args) => es(g.custom_op(
+                    members[*m].op.clone(),
+                    args.iter().map(|a| nodes[*a].clone()).collect(),
+                ))?,
+                Step::TupleGet(a, i) => es(nodes[*a].tuple_get(*i))?,
+                Step::A2B(a) => es(nodes[*a].a2b())?,
+                Step::B2A(a, st) => es(nodes[*a].b2a(*st))?,
+            };
+            nodes.push(n);
+        }
+        let out = es(g.create_tuple(spec.outs.iter().map(|o| nodes[*o].clone()).collect()))?;
+        es(out.set_as_output())?;
+        es(g.finalize())?;
+        es(g.set_as_main())?;
+        es(c.finalize())?;
+        Ok(c)
+    });
+    match r {
+        Ok(x) => x,
+        Err(p) => Err(format!("panic: {}", p)),
+    }
+}
+
+/// An accepted (member, argument signature) combination with its output type.
+#[derive(Clone)]
+struct Use {
+    member: usize,
+    sig: Vec<Type>,
+    out: Type,
+    wide: bool,
+}
+
+// ---------------------------------------------------------------------------------------------
+// input alphabet
+// ---------------------------------------------------------------------------------------------
+
+/// 8-bit rows (also read as 4-bit rows: low nibble); chosen so that sign bits, small positive values
+/// (2 < x <= 8 < y <= 64, for Clip2K) and equal pairs all occur
+const POOL8: [u128; 12] = [0x15, 0x8b, 0x7f, 0x00, 0x4a, 0xff, 0x03, 0xc9, 0x1c, 0x88, 0x02, 0xf1];
+const POOL64: [i128; 12] = [3, 100, 1000, -5, 1 << 12, 6, -300, 1 << 40, 5, 7, 1 << 20, -(1 << 35)];
+/// i64[4] is only used by AucScore: labels 0 / "1.0" in both fixed-point scalings of the alphabet
+const POOL_AUC: [i128; 12] = [0, 8, 1024, 8, 0, 0, 1024, 8, 1024, 0, 8, 1024];
+const POOL_SMALL: [i128; 8] = [3, -1, 2, 3, 0, 5, -1, 7];
+
+/// j-th value of the input alphabet for input number i of type t (deterministic, no randomness).
+fn input_value(t: &Type, i: usize, j: usize) -> Value {
+    let mut leaf = 0usize;
+    build_value(t, &mut |lt| {
+        let st = lt.get_scalar_type();
+        let n = num_elems(lt);
+        leaf += 1;
+        let base = j * 5 + i * 3 + leaf * 2;
+        let elems: Vec<u128> = if st == BIT {
+            // rows of the last dimension are numbers from POOL8 (64-bit rows: from POOL64), LSB first
+            let w = match lt {
+                Type::Array(s, _) => *s.last().unwrap() as usize,
+                _ => 1,
+            };
+            (0..n)
+                .map(|k| {
+                    let row = k / w;
+                    let bit = k % w;
+                    let num: u128 = if w > 8 {
+                        POOL64[(base + row * 7) % POOL64.len()] as u128
+                    } else {
+                        POOL8[(base + row * 7) % POOL8.len()]
+                    };
+                    (num >> bit) & 1
+                })
+                .collect()
+        } else if st == INT64 || st == UINT64 {
+            (0..n)
+                .map(|k| {
+                    let v = if n == 4 { POOL_AUC[(base + k * 7) % POOL_AUC.len()] } else { POOL64[(base + k * 7) % POOL64.len()] };
+                    if st_signed(&st) {
+                        v as u128
+                    } else {
+                        v.unsigned_abs()
+                    }
+                })
+                .collect()
+        } else {
+            (0..n)
+                .map(|k| {
+                    let v = POOL_SMALL[(base + k * 3) % POOL_SMALL.len()];
+                    if st_signed(&st) {
+                        v as u128
+                    } else {
+                        v.unsigned_abs()
+                    }
+                })
+                .collect()
+        };
+        arr_value(&elems, &st)
+    })
+}
+
+fn input_types(c: &Context) -> Result<Vec<Type>, String> {
+    let g = es(c.get_main_graph())?;
+    let mut ts = vec![];
+    for n in g.get_nodes() {
+        if let Operation::Input(t) = n.get_operation() {
+            ts.push(t);
+        }
+    }
+    Ok(ts)
+}
+
+fn input_alphabet(c: &Context, k: usize) -> Result<Vec<Vec<Value>>, String> {
+    let ts = input_types(c)?;
+    Ok((0..k).map(|j| ts.iter().enumerate().map(|(i, t)| input_value(t, i, j)).collect()).collect())
+}
+
+// ---------------------------------------------------------------------------------------------
+// the oracle: works on an arbitrary context + input vectors (shared by run and replay)
+// ---------------------------------------------------------------------------------------------
+
+fn op_json(op: &CustomOperation) -> String {
+    serde_json::to_string(op).unwrap_or_else(|_| format!("{:?}", op))
+}
+
+/// serde type tag of the operation struct, e.g. "SortByIntegerKey"
+fn op_tag(op: &CustomOperation) -> String {
+    let j: J = serde_json::from_str(&op_json(op)).unwrap_or(J::Null);
+    j.get("body")
+        .and_then(|b| b.get("type"))
+        .and_then(|t| t.as_str())
+        .map(|s| s.to_string())
+        .unwrap_or_else(|| op.get_name())
+}
+
+fn types_str(ts: &[Type]) -> String {
+    ts.iter().map(|t| format!("{}", t)).collect::<Vec<_>>().join(", ")
+}
+
+/// identity of an instantiation as the library defines it: operation (with parameters) + argument types
+fn inst_key(op: &CustomOperation, ts: &[Type]) -> String {
+    format!("{}::<{}>", op_json(op), types_str(ts))
+}
+
+thread_local! {
+    /// per-thread cache of single-operation reference contexts (already instantiated)
+    static REF_CACHE: RefCell<HashMap<String, Result<Context, String>>> = RefCell::new(HashMap::new());
+}
+
+/// The reference configuration: the single operation alone in a fresh context, instantiated.
+fn reference_context(op: &CustomOperation, ts: &[Type]) -> Result<Context, String> {
+    let key = inst_key(op, ts);
+    if let Some(r) = REF_CACHE.with(|c| c.borrow().get(&key).cloned()) {
+        return r;
+    }
+    let r = match catch(|| -> Result<Context, String> {
+        let c = es(create_context())?;
+        let g = es(c.create_graph())?;
+        let mut args = vec![];
+        for t in ts {
+            args.push(es(g.input(t.clone()))?);
+        }
+        let o = es(g.custom_op(op.clone(), args))?;
+        es(o.set_as_output())?;
+        es(g.finalize())?;
+        es(g.set_as_main())?;
+        es(c.finalize())?;
+        let mc = es(run_instantiation_pass(c))?;
+        Ok(mc.get_context())
+    }) {
+        Ok(x) => x,
+        Err(p) => Err(format!("panic: {}", p)),
+    };
+    REF_CACHE.with(|c| c.borrow_mut().insert(key, r.clone()));
+    r
+}
+
+fn eval_graph(g: &Graph, inputs: Vec<Value>, seed: u64) -> Result<Value, String> {
+    let g = g.clone();
+    match catch(move || evaluate_simple_evaluator(g, inputs, Some(seed_bytes(seed)))) {
+        Ok(Ok(v)) => Ok(v),
+        Ok(Err(e)) => Err(format!("error: {}", first_line(&e.to_string()))),
+        Err(p) => Err(format!("panic: {}", p)),
+    }
+}
+
+/// Per-node reference walk over the original (uninstantiated) main graph.
+/// Returns the value (or failure) of every node.
+fn reference_walk(c: &Context, inputs: &[Value], seed: u64) -> Result<Vec<Result<Value, String>>, String> {
+    let g = es(c.get_main_graph())?;
+    let mut ev = es(SimpleEvaluator::new(Some(seed_bytes(seed))))?;
+    let mut vals: Vec<Result<Value, String>> = vec![];
+    let mut next_input = 0;
+    for n in g.get_nodes() {
+        let deps_nodes = n.get_node_dependencies();
+        let mut deps = vec![];
+        let mut failed: Option<String> = None;
+        for d in deps_nodes.iter() {
+            match &vals[d.get_id() as usize] {
+                Ok(v) => deps.push(v.clone()),
+                Err(e) => {
+                    failed = Some(e.clone());
+                    break;
+                }
+            }
+        }
+        if let Some(e) = failed {
+            vals.push(Err(e));
+            continue;
+        }
+        let v = match n.get_operation() {
+            Operation::Input(_) => {
+                let v = inputs.get(next_input).cloned().ok_or("too few inputs")?;
+                next_input += 1;
+                Ok(v)
+            }
+            Operation::Custom(op) => {
+                let mut ts = vec![];
+                for d in deps_nodes.iter() {
+                    ts.push(es(d.get_type())?);
+                }
+                match reference_context(&op, &ts) {
+                    Ok(rc) => eval_graph(&es(rc.get_main_graph())?, deps, seed),
+                    Err(e) => Err(format!("reference instantiation failed: {}", e)),
+                }
+            }
+            Operation::Call | Operation::Iterate => {
+                return Err("reference walk does not support Call/Iterate in the original graph".into())
+            }
+            _ => {
+                let nn = n.clone();
+                match catch(|| ev.evaluate_node(nn, deps)) {
+                    Ok(Ok(v)) => Ok(v),
+                    Ok(Err(e)) => Err(format!("error: {}", first_line(&e.to_string()))),
+                    Err(p) => Err(format!("panic: {}", p)),
+                }
+            }
+        };
+        vals.push(v);
+    }
+    Ok(vals)
+}
+
+/// All instantiations (op, argument types) reachable from a context, nested ones included
+/// (independent re-walk, used only to explain a name collision).
+fn reachable_instantiations(c: &Context, out: &mut BTreeMap<String, (String, String, String)>, depth: usize) {
+    if depth > 8 {
+        return;
+    }
+    for g in c.get_graphs() {
+        for n in g.get_nodes() {
+            if let Operation::Custom(op) = n.get_operation() {
+                let ts: Vec<Type> = n.get_node_dependencies().iter().filter_map(|d| d.get_type().ok()).collect();
+                let key = inst_key(&op, &ts);
+                if out.contains_key(&key) {
+                    continue;
+                }
+                out.insert(key, (op_tag(&op), format!("__{}::<{}>", op.get_name(), types_str(&ts)), op_json(&op)));
+                let fc = match create_context() {
+                    Ok(fc) => fc,
+                    Err(_) => continue,
+                };
+                let ok = catch(|| op.instantiate(fc.clone(), ts.clone()).is_ok()).unwrap_or(false);
+                if ok {
+                    reachable_instantiations(&fc, out, depth + 1);
+                }
+            }
+        }
+    }
+}
+
+/// If two different instantiations of the context report the same graph name, returns their type tags.
+fn find_name_collision(c: &Context) -> Option<(String, String, String)> {
+    let mut all = BTreeMap::new();
+    reachable_instantiations(c, &mut all, 0);
+    let mut by_name: BTreeMap<String, Vec<(String, String)>> = BTreeMap::new();
+    for (_, (tag, name, opj)) in all.iter() {
+        by_name.entry(name.clone()).or_default().push((tag.clone(), opj.clone()));
+    }
+    for (name, v) in by_name.iter() {
+        if v.len() > 1 {
+            let mut tags: Vec<String> = v.iter().map(|x| x.0.clone()).collect();
+            tags.sort();
+            return Some((tags[0].clone(), tags[1].clone(), format!("graph name '{}' is reported by {} and {}", name, v[0].1, v[1].1)));
+        }
+    }
+    None
+}
+
+#[derive(Default)]
+struct Checked {
+    violations: Vec<(String, String, J)>,
+    n_custom: u64,
+    n_distinct_inst: u64,
+    nested_instantiations: bool,
+    instantiated_ok: bool,
+    evaluations: u64,
+    both_error: u64,
+    /// (tag, parameterisation pair, distinguished by some input)
+    param_pairs: Vec<(String, String, bool)>,
+}
+
+fn tags_of(c: &Context) -> Vec<String> {
+    let mut s = BTreeSet::new();
+    if let Ok(g) = c.get_main_graph() {
+        for n in g.get_nodes() {
+            if let Operation::Custom(op) = n.get_operation() {
+                s.insert(op_tag(&op));
+            }
+        }
+    }
+    s.into_iter().collect()
+}
+
+/// The whole oracle for one context.
+fn check_context(c: &Context, inputs: &[Vec<Value>], seed: u64) -> Result<Checked, String> {
+    let mut res = Checked::default();
+    let g = es(c.get_main_graph())?;
+    let nodes = g.get_nodes();
+    // custom nodes of the main graph: (node index, op, arg types, dependency ids)
+    let mut customs: Vec<(usize, CustomOperation, Vec<Type>, Vec<u64>)> = vec![];
+    for (i, n) in nodes.iter().enumerate() {
+        if let Operation::Custom(op) = n.get_operation() {
+            let mut ts = vec![];
+            let mut ids = vec![];
+            for d in n.get_node_dependencies() {
+                ts.push(es(d.get_type())?);
+                ids.push(d.get_id());
+            }
+            customs.push((i, op, ts, ids));
+        }
+    }
+    res.n_custom = customs.len() as u64;
+    let keys: Vec<String> = customs.iter().map(|x| inst_key(&x.1, &x.2)).collect();
+    res.n_distinct_inst = keys.iter().collect::<BTreeSet<_>>().len() as u64;
+    let all_tags = tags_of(c).join("+");
+
+    // (1) totality
+    let cc = c.clone();
+    let mc = match catch(move || run_instantiation_pass(cc)) {
+        Ok(Ok(mc)) => mc,
+        Ok(Err(e)) => {
+            let msg = first_line(&e.to_string());
+            if msg.contains("names must be unique") {
+                let (sig, why) = match find_name_collision(c) {
+                    Some((a, b, why)) => {
+                        if a == b {
+                            (format!("C08:name-collision:{}", a), why)
+                        } else {
+                            (format!("C08:name-collision:{}/{}", a, b), why)
+                        }
+                    }
+                    None => (format!("C08:name-collision:?:{}", all_tags), "colliding pair not identified".to_string()),
+                };
+                res.violations.push((
+                    sig,
+                    format!("run_instantiation_pass fails on a context whose nodes type-checked: {} ({})", msg, why),
+                    json!({"error": msg, "collision": why}),
+                ));
+            } else {
+                res.violations.push((
+                    format!("C08:instantiation-error:{}:{}", all_tags, stable_msg(&msg)),
+                    format!("run_instantiation_pass returns Err on a context whose nodes type-checked: {}", msg),
+                    json!({"error": msg}),
+                ));
+            }
+            return Ok(res);
+        }
+        Err(p) => {
+            res.violations.push((
+                format!("C08:instantiation-panic:{}:{}", all_tags, stable_msg(&p)),
+                format!("run_instantiation_pass panics on a context whose nodes type-checked: {}", p),
+                json!({"panic": p}),
+            ));
+            return Ok(res);
+        }
+    };
+    res.instantiated_ok = true;
+    let ic = mc.get_context();
+    let ig = es(ic.get_main_graph())?;
+    // no custom node may be left anywhere
+    let mut n_graphs = 0u64;
+    for gg in ic.get_graphs() {
+        n_graphs += 1;
+        for n in gg.get_nodes() {
+            if let Operation::Custom(op) = n.get_operation() {
+                res.violations.push((
+                    format!("C08:custom-node-left:{}", op_tag(&op)),
+                    "instantiated context still contains a Custom node".to_string(),
+                    json!({"op": op_json(&op)}),
+                ));
+            }
+        }
+    }
+    res.nested_instantiations = n_graphs > res.n_distinct_inst + 1;
+
+    // (3a) distinct instantiations -> distinct graphs
+    let mut graph_of_key: BTreeMap<String, u64> = BTreeMap::new();
+    for (ci, (i, op, _, _)) in customs.iter().enumerate() {
+        let n = &nodes[*i];
+        if !mc.mappings.contains_node(n) {
+            res.violations.push((
+                format!("C08:node-unmapped:{}", op_tag(op)),
+                "custom node has no image in the instantiated context".to_string(),
+                json!({"node": i}),
+            ));
+            continue;
+        }
+        let m = mc.mappings.get_node(n);
+        let gd = m.get_graph_dependencies();
+        if !matches!(m.get_operation(), Operation::Call) || gd.len() != 1 {
+            res.violations.push((
+                format!("C08:not-a-call:{}", op_tag(op)),
+                format!("custom node is mapped to {} instead of a Call", m.get_operation()),
+                json!({"node": i}),
+            ));
+            continue;
+        }
+        graph_of_key.insert(keys[ci].clone(), gd[0].get_id());
+    }
+    {
+        let mut owner: BTreeMap<u64, String> = BTreeMap::new();
+        for (k, gid) in graph_of_key.iter() {
+            if let Some(prev) = owner.get(gid) {
+                let tag = customs.iter().zip(keys.iter()).find(|(_, kk)| *kk == k).map(|(x, _)| op_tag(&x.1)).unwrap_or_default();
+                res.violations.push((
+                    format!("C08:shared-instantiation:{}", tag),
+                    "two different instantiations are mapped to the same instantiated graph".to_string(),
+                    json!({"a": prev, "b": k, "graph": gid}),
+                ));
+            } else {
+                owner.insert(*gid, k.clone());
+            }
+        }
+    }
+
+    // which output component is which custom node
+    let out_node = es(g.get_output_node())?;
+    let comp_of_node: BTreeMap<u64, usize> = if matches!(out_node.get_operation(), Operation::CreateTuple) {
+        out_node.get_node_dependencies().iter().enumerate().map(|(k, d)| (d.get_id(), k)).collect()
+    } else {
+        BTreeMap::new()
+    };
+    let out_t = es(out_node.get_type())?;
+
+    // parameterisation pairs on the same arguments
+    let mut ppairs: Vec<(usize, usize)> = vec![];
+    for a in 0..customs.len() {
+        for b in a + 1..customs.len() {
+            if op_tag(&customs[a].1) == op_tag(&customs[b].1) && keys[a] != keys[b] && customs[a].3 == customs[b].3 {
+                ppairs.push((a, b));
+            }
+        }
+    }
+    let mut distinguished = vec![false; ppairs.len()];
+
+    // (2) meaning
+    for inp in inputs.iter() {
+        res.evaluations += 1;
+        let observed = eval_graph(&ig, inp.clone(), seed);
+        let walk = reference_walk(c, inp, seed)?;
+        let expected = walk[out_node.get_id() as usize].clone();
+        match (&observed, &expected) {
+            (Ok(o), Ok(e)) => {
+                if o != e {
+                    // find the first differing component
+                    let mut tag = all_tags.clone();
+                    let mut comp = J::Null;
+                    if let (Ok(ov), Ok(evs)) = (o.to_vector(), e.to_vector()) {
+                        if !comp_of_node.is_empty() && ov.len() == evs.len() {
+                            for (ci, (i, op, _, _)) in customs.iter().enumerate() {
+                                if let Some(k) = comp_of_node.get(&(*i as u64)) {
+                                    if ov[*k] != evs[*k] {
+                                        tag = op_tag(op);
+                                        comp = json!({"component": k, "instantiation": keys[ci]});
+                                        break;
+                                    }
+                                }
+                            }
+                        }
+                    }
+                    res.violations.push((
+                        format!("C08:value-mismatch:{}", tag),
+                        "instantiated context evaluates differently from the per-node single-operation reference".to_string(),
+                        json!({"observed": show(o, &out_t), "expected": show(e, &out_t), "where": comp,
+                               "input": inp.iter().zip(input_types(c)?.iter()).map(|(v, t)| show(v, t)).collect::<Vec<_>>()}),
+                    ));
+                }
+            }
+            (Err(o), Err(e)) => {
+                res.both_error += 1;
+                if stable_msg(o) != stable_msg(e) {
+                    res.violations.push((
+                        format!("C08:error-mismatch:{}", all_tags),
+                        "instantiated context and reference both fail, but differently".to_string(),
+                        json!({"observed": o, "expected": e}),
+                    ));
+                }
+            }
+            (o, e) => {
+                res.violations.push((
+                    format!("C08:outcome-mismatch:{}", all_tags),
+                    "one of instantiated evaluation / reference fails, the other returns a value".to_string(),
+                    json!({"observed": o.as_ref().map(|v| show(v, &out_t)).map_err(|x| x.clone()),
+                           "expected": e.as_ref().map(|v| show(v, &out_t)).map_err(|x| x.clone())}),
+                ));
+            }
+        }
+        // (3b) different parameterisations on the same arguments
+        for (pi, (a, b)) in ppairs.iter().enumerate() {
+            let (ia, ib) = (customs[*a].0, customs[*b].0);
+            let differ_ref = match (&walk[ia], &walk[ib]) {
+                (Ok(x), Ok(y)) => x != y,
+                (Err(_), Err(_)) => false,
+                _ => true,
+            };
+            if !differ_ref {
+                continue;
+            }
+            distinguished[pi] = true;
+            if let (Ok(o), Some(ka), Some(kb)) = (&observed, comp_of_node.get(&(ia as u64)), comp_of_node.get(&(ib as u64))) {
+                if let Ok(ov) = o.to_vector() {
+                    if ov.len() > *ka.max(kb) && ov[*ka] == ov[*kb] {
+                        res.violations.push((
+                            format!("C08:parameter-ignored:{}", op_tag(&customs[*a].1)),
+                            "two parameterisations whose single-op references differ give the same result in one context".to_string(),
+                            json!({"a": keys[*a], "b": keys[*b]}),
+                        ));
+                    }
+                }
+            }
+        }
+    }
+    for (pi, (a, b)) in ppairs.iter().enumerate() {
+        res.param_pairs.push((
+            op_tag(&customs[*a].1),
+            format!("{} | {}", keys[*a], keys[*b]),
+            distinguished[pi],
+        ));
+    }
+    Ok(res)
+}
+
+// ---------------------------------------------------------------------------------------------
+// enumeration
+// ---------------------------------------------------------------------------------------------
+
+fn accepted_uses(members: &[Member], r: &Report) -> Vec<Use> {
+    let mut uses = vec![];
+    for (mi, m) in members.iter().enumerate() {
+        let mut cands: Vec<(Vec<Type>, bool)> = m.sigs.iter().map(|s| (s.clone(), false)).collect();
+        cands.extend(m.wide_sigs.iter().map(|s| (s.clone(), true)));
+        for (sig, wide) in cands {
+            r.count("candidate_uses", 1);
+            let mut sp = Spec::new(String::new());
+            let a = sp.inputs(&sig);
+            sp.custom(mi, a);
+            match build(&sp, members) {
+                Ok(c) => {
+                    let out = c
+                        .get_main_graph()
+                        .and_then(|g| g.get_output_node())
+                        .and_then(|o| o.get_node_dependencies()[0].get_type());
+                    if let Ok(out) = out {
+                        uses.push(Use { member: mi, sig, out, wide });
+                    }
+                }
+                Err(_) => r.count("uses_rejected_by_builder", 1),
+            }
+        }
+    }
+    uses
+}
+
+fn use_label(u: &Use, members: &[Member]) -> String {
+    format!("{}<{}>", members[u.member].label(), types_str(&u.sig))
+}
+
+/// values produced by a use that can feed another operation: (glue steps appended to spec, type)
+fn produced(sp: &mut Spec, node: usize, t: &Type) -> Vec<(usize, Type)> {
+    let mut out = vec![];
+    match t {
+        Type::Tuple(ts) => {
+            for (i, tt) in ts.iter().enumerate() {
+                let n = sp.push(Step::TupleGet(node, i as u64));
+                out.push((n, (**tt).clone()));
+            }
+        }
+        _ => out.push((node, t.clone())),
+    }
+    // bridges between the integer family and the bit-string family
+    let mut extra = vec![];
+    for (n, tt) in out.iter() {
+        if let Type::Array(s, st) = tt {
+            if *st == INT64 || *st == UINT64 {
+                let mut bs = s.clone();
+                bs.push(64);
+                extra.push((Step::A2B(*n), array_type(bs, BIT)));
+            } else if *st == BIT && s.len() >= 2 && *s.last().unwrap() == 64 {
+                extra.push((Step::B2A(*n, INT64), array_type(s[..s.len() - 1].to_vec(), INT64)));
+            }
+        }
+    }
+    for (s, tt) in extra {
+        let n = sp.push(s);
+        out.push((n, tt));
+    }
+    out
+}
+
+/// spec "b applied to the output of a", if some signature of b has a position of a produced type
+fn nest_spec(a: &Use, b: &Use, members: &[Member]) -> Option<Spec> {
+    let mut sp = Spec::new(format!("nest {} -> {}", use_label(a, members), use_label(b, members)));
+    let ia = sp.inputs(&a.sig);
+    let na = sp.custom(a.member, ia);
+    let prod = produced(&mut sp, na, &a.out);
+    for (pn, pt) in prod.iter() {
+        if let Some(pos) = b.sig.iter().position(|t| t == pt) {
+            let mut args = vec![];
+            for (k, t) in b.sig.iter().enumerate() {
+                if k == pos {
+                    args.push(*pn);
+                } else {
+                    args.push(sp.input(t));
+                }
+            }
+            sp.custom(b.member, args);
+            return Some(sp);
+        }
+    }
+    None
+}
+
+fn enumerate_specs(members: &[Member], uses: &[Use], thorough: bool) -> Vec<Spec> {
+    let mut specs = vec![];
+    // uses taking part in pair enumeration: thorough = all accepted uses; quick = the first accepted
+    // signature of every member
+    let all: Vec<&Use> = uses.iter().filter(|u| thorough || !u.wide).collect();
+    let primary: Vec<&Use> = (0..members.len()).filter_map(|m| all.iter().find(|u| u.member == m).copied()).collect();
+    let mut pairs: Vec<(&Use, &Use, bool)> = vec![];
+    {
+        let pu: &Vec<&Use> = if thorough { &all } else { &primary };
+        for i in 0..pu.len() {
+            for j in i..pu.len() {
+                pairs.push((pu[i], pu[j], i == j));
+            }
+        }
+        if !thorough {
+            // quick: additionally all parameterisations of one op side by side on every further signature
+            for i in 0..all.len() {
+                for j in i + 1..all.len() {
+                    let (a, b) = (all[i], all[j]);
+                    let is_primary = |u: &Use| primary.iter().any(|p| p.member == u.member && p.sig == u.sig);
+                    if members[a.member].base == members[b.member].base && a.sig == b.sig && !(is_primary(a) && is_primary(b)) {
+                        pairs.push((a, b, false));
+                    }
+                }
+            }
+        }
+    }
+    // A. unordered pairs of uses (diagonal included): once, twice
+    for (a, b, diag) in pairs.into_iter() {
+        let same_base_same_sig = members[a.member].base == members[b.member].base && a.sig == b.sig;
+        // once (two parameterisations of one op: on the SAME arguments)
+        let mut sp = Spec::new(format!("once {} | {}", use_label(a, members), use_label(b, members)));
+        let ia = sp.inputs(&a.sig);
+        sp.custom(a.member, ia.clone());
+        if !diag {
+            let ib = if same_base_same_sig { ia.clone() } else { sp.inputs(&b.sig) };
+            sp.custom(b.member, ib);
+        }
+        specs.push(sp);
+        // twice: a, b, a on fresh inputs, b on the same inputs again
+        let mut sp = Spec::new(format!("twice {} | {}", use_label(a, members), use_label(b, members)));
+        let ia = sp.inputs(&a.sig);
+        sp.custom(a.member, ia.clone());
+        let ib = if !diag {
+            let ib = sp.inputs(&b.sig);
+            sp.custom(b.member, ib.clone());
+            ib
+        } else {
+            ia.clone()
+        };
+        let ia2 = sp.inputs(&a.sig);
+        sp.custom(a.member, ia2);
+        if !diag {
+            sp.custom(b.member, ib);
+        }
+        specs.push(sp);
+    }
+    // B. nesting: for every ordered pair (use a, member b) the first signature of b that fits (thorough: all)
+    for a in all.iter() {
+        for mb in 0..members.len() {
+            for b in uses.iter().filter(|u| u.member == mb) {
+                // quick: 64-bit bit-string signatures are reachable as nesting targets (A2B bridge), the
+                // expensive array signatures of FixedMultiply{debug=true} are not
+                if !thorough && b.wide && members[mb].base == "FixedMultiply" {
+                    continue;
+                }
+                if let Some(sp) = nest_spec(a, b, members) {
+                    specs.push(sp);
+                    if !thorough {
+                        break;
+                    }
+                }
+            }
+        }
+    }
+    // C. thorough: unordered triples of members (first accepted signature of each), once
+    if thorough {
+        let first: Vec<&Use> = (0..members.len()).filter_map(|m| uses.iter().find(|u| u.member == m)).collect();
+        for i in 0..first.len() {
+            for j in i + 1..first.len() {
+                for k in j + 1..first.len() {
+                    let mut sp = Spec::new(format!(
+                        "triple {} | {} | {}",
+                        use_label(first[i], members),
+                        use_label(first[j], members),
+                        use_label(first[k], members)
+                    ));
+                    let mut by_sig: Vec<(Vec<Type>, Vec<usize>)> = vec![];
+                    for u in [first[i], first[j], first[k]] {
+                        // operations with the same signature share their arguments
+                        let args = match by_sig.iter().find(|(s, _)| *s == u.sig) {
+                            Some((_, a)) => a.clone(),
+                            None => {
+                                let a = sp.inputs(&u.sig);
+                                by_sig.push((u.sig.clone(), a.clone()));
+                                a
+                            }
+                        };
+                        sp.custom(u.member, args);
+                    }
+                    specs.push(sp);
+                }
+            }
+        }
+    }
+    specs
+}
+
+struct CaseOut {
+    label: String,
+    built: bool,
+    checked: Option<Checked>,
+    machinery: Option<String>,
+    case: Option<J>,
+    sample: Option<J>,
+}
+
+fn run_case(sp: &Spec, members: &[Member], k_inputs: usize, seed: u64, want_sample: bool) -> CaseOut {
+    let mut out = CaseOut { label: sp.label.clone(), built: false, checked: None, machinery: None, case: None, sample: None };
+    let c = match build(sp, members) {
+        Ok(c) => c,
+        Err(_) => return out,
+    };
+    out.built = true;
+    let inputs = match input_alphabet(&c, k_inputs) {
+        Ok(i) => i,
+        Err(e) => {
+            out.machinery = Some(e);
+            return out;
+        }
+    };
+    match check_context(&c, &inputs, seed) {
+        Ok(ch) => {
+            if !ch.violations.is_empty() {
+                out.case = Some(json!({
+                    "label": sp.label,
+                    "context": serde_json::to_string(&c).unwrap_or_default(),
+                    "inputs": serde_json::to_value(&inputs).unwrap_or(J::Null),
+                }));
+            }
+            if want_sample {
+                out.sample = Some(json!({"context": sp.label, "custom_nodes": ch.n_custom, "distinct_instantiations": ch.n_distinct_inst,
+                    "instantiated": ch.instantiated_ok, "input_vectors": ch.evaluations}));
+            }
+            out.checked = Some(ch);
+        }
+        Err(e) => out.machinery = Some(e),
+    }
+    out
+}
+
+pub fn run(r: &Report) -> i32 {
+    let thorough = r.tier.thorough();
+    let members = alphabet();
+    let uses = accepted_uses(&members, r);
+    r.count("alphabet_members", members.len() as u64);
+    r.count("accepted_uses", uses.len() as u64);
+    let specs = enumerate_specs(&members, &uses, thorough);
+    r.count("contexts_enumerated", specs.len() as u64);
+    let k_inputs = if thorough { 5 } else { 4 };
+    let seed = r.seed;
+
+    let chunk = 256;
+    let mut machinery: Option<String> = None;
+    let mut undistinguished: BTreeMap<String, bool> = BTreeMap::new();
+    let mut by_base: BTreeMap<String, (u64, u64)> = BTreeMap::new();
+    let mut n_sampled = 0usize;
+    // wall-clock guard for overloaded machines (the enumeration order is pairs, nesting, triples; a cut
+    // is reported as a cap and makes the run non-exhaustive)
+    let max_s: f64 = std::env::var("C08_MAX_S").ok().and_then(|s| s.parse().ok()).unwrap_or(if thorough { 570.0 } else { 3600.0 });
+    for (ci, part) in specs.chunks(chunk).enumerate() {
+        if r.elapsed() > max_s {
+            r.cap_hit(&format!("wall-clock cap {} s: {} of {} contexts checked", max_s, ci * chunk, specs.len()));
+            break;
+        }
+        let want = n_sampled < r.max_samples;
+        let outs: Vec<CaseOut> = part
+            .par_iter()
+            .enumerate()
+            .map(|(i, sp)| run_case(sp, &members, k_inputs, seed, want && ci == 0 && i % 37 == 0))
+            .collect();
+        for o in outs {
+            if let Some(e) = o.machinery {
+                if machinery.is_none() {
+                    machinery = Some(format!("{}: {}", o.label, e));
+                }
+                continue;
+            }
+            if !o.built {
+                r.count("contexts_rejected_by_builder", 1);
+                continue;
+            }
+            let ch = o.checked.unwrap();
+            r.count("contexts_checked", 1);
+            r.count("evaluations", ch.evaluations);
+            r.count("both_error_evaluations", ch.both_error);
+            if ch.instantiated_ok {
+                r.count("contexts_instantiated_ok", 1);
+            }
+            if ch.n_distinct_inst >= 2 {
+                r.distinct_str(&o.label);
+                r.count("contexts_with_2plus_instantiations", 1);
+            }
+            if ch.nested_instantiations {
+                r.count("contexts_with_nested_instantiations", 1);
+            }
+            if o.label.starts_with("nest") {
+                r.count("nesting_contexts", 1);
+            }
+            for (tag, pair, d) in ch.param_pairs.iter() {
+                let e = by_base.entry(tag.clone()).or_insert((0, 0));
+                e.0 += 1;
+                if *d {
+                    e.1 += 1;
+                }
+                r.count("parameter_pairs_side_by_side", 1);
+                if *d {
+                    r.count("parameter_pairs_distinguished_by_input", 1);
+                }
+                let e = undistinguished.entry(pair.clone()).or_insert(false);
+                *e = *e || *d;
+            }
+            if let Some(s) = o.sample {
+                if n_sampled < r.max_samples {
+                    r.sample(s);
+                    n_sampled += 1;
+                }
+            }
+            for (sig, what, extra) in ch.violations.iter() {
+                let mut case = o.case.clone().unwrap_or(J::Null);
+                if let Some(m) = case.as_object_mut() {
+                    m.insert("detail".into(), extra.clone());
+                }
+                r.violation(sig, &format!("{} [context: {}]", what, o.label), case);
+            }
+        }
+    }
+    if let Some(e) = machinery {
+        println!("MACHINERY-ERROR property=C08 {}", e);
+        return 2;
+    }
+    let never: Vec<String> = undistinguished.iter().filter(|(_, d)| !**d).map(|(k, _)| k.clone()).collect();
+    r.extra("parameter_pairs_never_distinguished", json!(never));
+    r.extra(
+        "side_by_side_pairs_by_op",
+        json!(by_base.iter().map(|(k, v)| (k.clone(), json!({"contexts": v.0, "distinguished": v.1}))).collect::<BTreeMap<_, _>>()),
+    );
+    // oracle (3) must not be vacuous for any operation that has parameters and instantiates side by side
+    let vacuous: Vec<String> = by_base.iter().filter(|(_, v)| v.1 == 0).map(|(k, _)| k.clone()).collect();
+    if !vacuous.is_empty() {
+        println!(
+            "MACHINERY-ERROR property=C08 vacuous: no input distinguishes any two parameterisations of {:?}",
+            vacuous
+        );
+        return 2;
+    }
+    r.finish(
+        "exploration",
+        "contexts = unordered pairs (diagonal included) of accepted uses (op+parameters, argument signature) - thorough: all \
+         uses, quick: first accepted signature of every member plus all parameterisations of one op on every further shared \
+         signature - each once and twice (second copy on fresh inputs; two parameterisations of one op share their arguments); \
+         nesting b(a(..)) for every ordered (use a, member b) whose signature has a position of a's output type (TupleGet/A2B/B2A \
+         glue; quick: first fitting signature, thorough: all); thorough: all unordered triples of members; every context on 4 \
+         (thorough 5) input vectors; non-trivial = context needing >= 2 distinct instantiations",
+        true,
+        &[
+            "the single-operation context (one instantiation per context) is the trusted reference configuration",
+            "plain evaluation of the enumerated operations is deterministic (no Random nodes)",
+            "inputs outside an operation's documented range still evaluate deterministically, so they are valid differential inputs",
+        ],
+        &[
+            "evaluations",
+            "contexts_with_2plus_instantiations",
+            "contexts_with_nested_instantiations",
+            "nesting_contexts",
+            "parameter_pairs_distinguished_by_input",
+        ],
+    )
+}
+
+pub fn replay(r: &Report, rec: &serde_json::Value) -> i32 {
+    let case = &rec["case"];
+    let ctx_s = match case["context"].as_str() {
+        Some(s) => s,
+        None => {
+            println!("MACHINERY-ERROR property=C08 replay record has no context");
+            return 2;
+        }
+    };
+    let c: Context = match serde_json::from_str(ctx_s) {
+        Ok(c) => c,
+        Err(e) => {
+            println!("MACHINERY-ERROR property=C08 cannot deserialize context: {}", e);
+            return 2;
+        }
+    };
+    let inputs: Vec<Vec<Value>> = match serde_json::from_value(case["inputs"].clone()) {
+        Ok(i) => i,
+        Err(e) => {
+            println!("MACHINERY-ERROR property=C08 cannot deserialize inputs: {}", e);
+            return 2;
+        }
+    };
+    let want = rec["signature"].as_str().unwrap_or("");
+    println!("replaying context: {}", case["label"].as_str().unwrap_or("?"));
+    match check_context(&c, &inputs, r.seed) {
+        Ok(ch) => {
+            println!(
+                "custom nodes: {}, distinct instantiations: {}, run_instantiation_pass ok: {}",
+                ch.n_custom, ch.n_distinct_inst, ch.instantiated_ok
+            );
+            println!("expected: run_instantiation_pass Ok and evaluation equal to the per-node single-operation reference");
+            let mut hit = false;
+            for (sig, what, extra) in ch.violations.iter() {
+                println!("observed: [{}] {} {}", sig, what, extra);
+                if sig == want || want.is_empty() {
+                    hit = true;
+                }
+            }
+            if ch.violations.is_empty() {
+                println!("observed: no violation");
+            }
+            if hit {
+                println!("VIOLATION property=C08 reproduced signature={}", want);
+                1
+            } else {
+                println!("NOT-REPRODUCED property=C08 signature={}", want);
+                0
+            }
+        }
+        Err(e) => {
+            println!("MACHINERY-ERROR property=C08 {}", e);
+            2
+        }
+    }
 }
